@@ -33,7 +33,7 @@ package jsonrpc2
 //@ monitor stateMu via (*Connection).updateInFlight [C01, C02, C03, C04, C05]
 //@   state s := &c.state
 //@   closeonly Connection.done, AsyncCall.ready, releaser.ch
-//@   protects fields(Connection.state), fields(Connection.done), fields(AsyncCall.response), fields(AsyncCall.id), fields(AsyncCall.ready), maps("map[ID]*AsyncCall"), maps("map[ID]*incomingRequest"), allElems("*incomingRequest"), chanState
+//@   protects fields(Connection.state), fields(Connection.done), fields(Response.ID), fields(Response.Error), fields(Response.Result), fields(AsyncCall.response), fields(AsyncCall.id), fields(AsyncCall.ready), maps("map[ID]*AsyncCall"), maps("map[ID]*incomingRequest"), allElems("*incomingRequest"), chanState
 //@   assume c.done != nil
 // in-flight counters stay far below the 64-bit range (they count live goroutines and messages)
 //@   assume s.incoming < 4611686018427387904 && s.outgoingNotifications < 4611686018427387904
@@ -41,6 +41,8 @@ package jsonrpc2
 //@        rawGet(s.outgoingCalls, id) != nil && rawGet(s.outgoingCalls, id).id == id && !closed(rawGet(s.outgoingCalls, id).ready) && rawGet(s.outgoingCalls, id).ready != nil && rawGet(s.outgoingCalls, id).ready != c.done
 //@   invariant @K1b-pending-calls-have-their-own-channel forall id ID, id2 ID :: {inDom(s.outgoingCalls, id), inDom(s.outgoingCalls, id2)}
 //@        id in s.outgoingCalls && id2 in s.outgoingCalls && id != id2 ==> rawGet(s.outgoingCalls, id).ready != rawGet(s.outgoingCalls, id2).ready && rawGet(s.outgoingCalls, id) != rawGet(s.outgoingCalls, id2)
+//@   invariant @K2-indexed-requests-exist forall id ID :: {inDom(s.incomingByID, id)} id in s.incomingByID ==> rawGet(s.incomingByID, id) != nil
+//@   invariant @K2b-indexed-requests-are-counted len(s.incomingByID) <= s.incoming
 //@   invariant @K3-counters-nonnegative s.incoming >= 0 && s.outgoingNotifications >= 0
 //@   invariant @K4-done-means-finished closed(c.done) ==> idle(s) && shutting(s) && !s.reading && s.closer == nil
 //@   invariant @K6-dispatcher-owns-queue !s.handlerRunning ==> len(s.handlerQueue) == 0
@@ -49,7 +51,12 @@ package jsonrpc2
 //@        && (old(s.closer == nil) ==> s.closer == nil) && (old(closed(c.done)) ==> closed(c.done))
 //@   transition @T2-removal-completes forall id ID :: {inDom(s.outgoingCalls, id)} old(id in s.outgoingCalls) && !(id in s.outgoingCalls) ==> closed(old(rawGet(s.outgoingCalls, id)).ready)
 //@   transition @T3-completion-is-final forall ac *AsyncCall :: {closed(ac.ready)} old(closed(ac.ready)) ==> closed(ac.ready) && ac.response == old(ac.response)
+//@   transition @T4-completed-with-own-response forall id ID :: {inDom(s.outgoingCalls, id)} old(id in s.outgoingCalls) && closed(old(rawGet(s.outgoingCalls, id)).ready)
+//@        ==> old(rawGet(s.outgoingCalls, id)).response != nil && old(rawGet(s.outgoingCalls, id)).response.ID == id
 //@   transition @T5-no-admission-during-shutdown old(shutting(s)) ==> (forall id ID :: {inDom(s.outgoingCalls, id)} id in s.outgoingCalls ==> old(id in s.outgoingCalls))
+//@   transition @T5b-nothing-enqueued-during-shutdown old(shutting(s)) ==> len(s.handlerQueue) <= old(len(s.handlerQueue))
+//@   transition @T7-indexed-requests-are-never-replaced forall id ID :: {inDom(s.incomingByID, id)} old(id in s.incomingByID) && id in s.incomingByID ==> rawGet(s.incomingByID, id) == old(rawGet(s.incomingByID, id))
+//@   transition @T8-counters-move-by-one s.incoming - old(s.incoming) <= 1 && old(s.incoming) - s.incoming <= 1
 //@   transition @T9-closer-consumed-only-when-finished old(s.closer != nil) && s.closer == nil ==> idle(s) && shutting(s)
 
 // ---- actions with thread-local preconditions (facts about captured variables the enclosing function owns) ----
@@ -68,6 +75,7 @@ package jsonrpc2
 //@   requires err != nil
 //@   loop 1: invariant @map-untouched s.outgoingCalls == old(s.outgoingCalls) && closed(c.done) == old(closed(c.done))
 //@   loop 1: invariant @visited-are-completed forall id ID :: {inDom(s.outgoingCalls, id)} id in s.outgoingCalls && id in $visited ==> closed(rawGet(s.outgoingCalls, id).ready)
+//@        && rawGet(s.outgoingCalls, id).response != nil && rawGet(s.outgoingCalls, id).response.ID == id
 //@   loop 1: invariant @unvisited-are-open forall id ID :: {inDom(s.outgoingCalls, id)} id in s.outgoingCalls && !(id in $visited) ==> !closed(rawGet(s.outgoingCalls, id).ready)
 //@   loop 1: invariant @completion-is-final forall ac *AsyncCall :: {closed(ac.ready)} old(closed(ac.ready)) ==> closed(ac.ready) && ac.response == old(ac.response)
 
@@ -79,3 +87,15 @@ package jsonrpc2
 // still counted is an ownership fact about this goroutine's own increment: assumed, not machine-checked.
 //@ func (*Connection).Notify$1$1 [C05]
 //@   assume s.outgoingNotifications > 0
+
+// processResult's final action gives back the slot of the request it has just finished. That request is counted in
+// s.incoming and is no longer indexed (its own earlier action removed it; notifications never were): an ownership
+// fact about the goroutine that carries the request, assumed, not machine-checked.
+//@ func (*Connection).processResult$2 [C02]
+//@   assume s.incoming > 0 && len(s.incomingByID) < s.incoming
+
+// acceptRequest runs on the reader goroutine only; s.reading stays true until that goroutine's own exit action.
+//@ func (*Connection).acceptRequest$1 [C02]
+//@   assume s.reading
+//@ func (*Connection).acceptRequest$2 [C02]
+//@   assume s.reading
